@@ -284,8 +284,8 @@ def ecrun(job):
         m.msh.msh_7 = '20200101'
         m.msh.msh_9 = 'ADT' + C + 'A01' + C + 'ADT_A01'
         m.msh.msh_10 = '1'
-        m.pid.pid_3 = 'a' + C + 'b' + S + 'c'                    # through a not-yet-existing PID (traversal child)
-        m.pid.pid_5 = 'x' + C + 'y'
+        m.pid.pid_5.value = 'x' + C + 'y'                       # two links that do not exist yet (PID, PID_5), the value set on the deepest (seed C17-i)
+        m.pid.pid_3 = 'a' + C + 'b' + S + 'c'                    # through a not-yet-existing PID_3 (traversal child)
         m.nk1 = 'NK1' + ec['FIELD'] * 2 + 'n' + C + 'm' + R + 'o' + S + 'p'      # a whole segment, with a repetition
         m.add_segment('PV1').pv1_2 = 'I'
         if v != '2.1':
